@@ -19,6 +19,7 @@ Not modelled: enums with `...` (partial), opaque / empty enums (the property exc
 -/
 namespace CffiVerif.Enum
 open CffiVerif.ConstExpr
+open CffiVerif.Generated
 
 structure Item where
   name : String
@@ -75,19 +76,27 @@ def Base.signed : Base → Bool
 def Base.cname : Base → String
   | .int => "int" | .uint => "unsigned int" | .long => "long" | .ulong => "unsigned long"
 
-/-- `smallest_value >= ((-1) << (8*size-1)) and largest_value < (1 << (8*size-sign))`. -/
-def fits (size sign : Nat) (lo hi : Int) : Bool :=
-  decide (lo ≥ -(2 ^ (8 * size - 1) : Int)) && decide (hi < (2 ^ (8 * size - sign) : Int))
+/-- `ffi.sizeof(btype)` of a candidate, by the name given to `PrimitiveType(...)`, on LP64
+(platform parameter of the model). -/
+def lp64Sizeof (n : String) : Int :=
+  if n = "int" ∨ n = "unsigned int" then 4
+  else if n = "long" ∨ n = "unsigned long" then 8
+  else 0
 
+def Base.ofCName (n : String) : Option Base :=
+  if n = "int" then some .int else if n = "unsigned int" then some .uint
+  else if n = "long" then some .long else if n = "unsigned long" then some .ulong
+  else none
+
+/-- `build_baseinttype` on the smallest and largest value: the candidate selection and the range
+tests are the ones translated from model.py (`Generated/ConstExprPy.lean`). -/
 def baseOfRange (lo hi : Int) : Except Err Base :=
-  if lo < 0 then
-    if fits Base.int.size 1 lo hi then .ok .int
-    else if fits Base.long.size 1 lo hi then .ok .long
-    else .error .cdef
-  else
-    if fits Base.uint.size 0 lo hi then .ok .uint
-    else if fits Base.ulong.size 0 lo hi then .ok .ulong
-    else .error .cdef
+  match ConstExprPy.build_baseinttype lo hi lp64Sizeof with
+  | .ok n =>
+    match Base.ofCName n with
+    | some b => .ok b
+    | none => .error .ffi           -- a candidate the model does not know (never on this source)
+  | .error e => .error e
 
 def listMin : Int → List Int → Int
   | m, [] => m
